@@ -95,7 +95,7 @@ func genArgString(t *rapid.T, label string) string {
 	return sb.String()
 }
 
-var decoderOptions = []string{"", "", "", "lower", "snake", "simple-as-map", "keep-spaces", "seq-num", "dec-escape", "cast", "cast", "cast-int", "cast-nobool-nofloat", "cast-naninf", "no-prefix", "key-prefix", "xmpp"}
+var decoderOptions = []string{"", "", "", "lower", "snake", "simple-as-map", "keep-spaces", "seq-num", "dec-escape", "cast", "cast", "cast-int", "cast-nobool-nofloat", "cast-naninf", "no-prefix", "key-prefix", "xmpp", "key-prefix-name", "attr-prefix-name"}
 
 func genC15(t *rapid.T) CaseC15 {
 	c := CaseC15{Clause: rapid.SampledFrom([]string{"bytes", "bytes", "args"}).Draw(t, "clause")}
@@ -103,6 +103,16 @@ func genC15(t *rapid.T) CaseC15 {
 		g := VGen{Keys: []string{"a", "b", "k", "list", "", "-a", "#text", "a.b", "x[0]", "*"}, Nulls: true, StringGen: func(t *rapid.T, l string) string { return rapid.SampledFrom(scalarStrings).Draw(t, l) }}
 		c.Map = g.Map(t, 3)
 		c.Path, c.Sub, c.Pair, c.NewVal = genArgString(t, "path"), genArgString(t, "sub"), genArgString(t, "pair"), genArgString(t, "newval")
+		if rapid.IntRange(0, 7).Draw(t, "widemap") == 0 {
+			// a Map whose results outgrow the initial result capacity several times over, addressed by a path that matches
+			var st []Step
+			c.Map, st = boostWide(t)
+			c.Path = pathString(st)
+			if rapid.IntRange(0, 3).Draw(t, "widetail") == 0 {
+				c.Path += genArgString(t, "tail")
+			}
+			c.Pair = c.Path + ":n.m"
+		}
 		c.Option = rapid.SampledFrom([]string{"", "", "", "attr-prefix-long", "no-prefix", "dot-notation", "separator", "array-size"}).Draw(t, "qoption")
 		return c
 	}
@@ -114,9 +124,24 @@ func genC15(t *rapid.T) CaseC15 {
 		if rapid.IntRange(0, 2).Draw(t, "casttexts") == 0 {
 			g.TextGen = genCastText
 		}
-		pristine = []byte(rapid.SampledFrom([]string{"", "", "<?xml version=\"1.0\"?>", "<!-- c -->", "\xef\xbb\xbf", "\n"}).Draw(t, "prolog") + g.Elem(t, 3).String())
-		c.Input = mutateXML(t, pristine)
+		doc := g.Elem(t, 3)
 		c.Option = rapid.SampledFrom(decoderOptions).Draw(t, "option")
+		if c.Option == "key-prefix-name" || c.Option == "attr-prefix-name" {
+			// a key or attribute prefix that may begin an XML name: elements (and attributes) named like the keys the decoders reserve
+			reserved := []string{"_comment", "_directive", "_procinst", "_attr", "_text", "_seq", "_target", "_inst", "_id", "_"}
+			doc.walk(func(e *XElem) {
+				if rapid.IntRange(0, 3).Draw(t, "rename") == 0 {
+					e.Prefix, e.Local = "", rapid.SampledFrom(reserved).Draw(t, "reserved")
+				}
+				for i := range e.Attrs {
+					if e.Attrs[i].Prefix == "" && e.Attrs[i].Local != "xmlns" && rapid.IntRange(0, 5).Draw(t, "renameattr") == 0 {
+						e.Attrs[i].Local = rapid.SampledFrom(reserved).Draw(t, "reservedattr") + fmt.Sprint(i)
+					}
+				}
+			})
+		}
+		pristine = []byte(rapid.SampledFrom([]string{"", "", "<?xml version=\"1.0\"?>", "<!-- c -->", "\xef\xbb\xbf", "\n"}).Draw(t, "prolog") + doc.String())
+		c.Input = mutateXML(t, pristine)
 	case "json":
 		pristine, _ = json.Marshal(genJMap(t, 2))
 		c.Input = mutateJSON(t, pristine)
@@ -204,6 +229,10 @@ func applyDecoderOption(opt string) {
 		mxj.SetAttrPrefix("")
 	case "key-prefix":
 		mxj.SetGlobalKeyMapPrefix("$")
+	case "key-prefix-name":
+		mxj.SetGlobalKeyMapPrefix("_")
+	case "attr-prefix-name":
+		mxj.SetAttrPrefix("_")
 	case "xmpp":
 		mxj.HandleXMPPStreamTag(true)
 	case "attr-prefix-long":
